@@ -19,8 +19,10 @@ import Acme.Driver.Conv
 import Acme.Driver.SaveSel
 import Acme.Driver.Import
 import Acme.Driver.Save
+import Acme.Driver.SaveScalar
 import Acme.Driver.Attr
 import Acme.Driver.ImportBus
+import Acme.Driver.ImportFile
 
 open Acme.Driver
 
@@ -47,8 +49,10 @@ def stepLine (s : DState) (line : String) : DState × String :=
   | "ss" :: rest => (s, SaveSelD.handle rest)
   | "imp" :: rest => (s, ImportD.handle rest)
   | "sv" :: rest => (s, SaveD.handle rest)
+  | "svs" :: rest => (s, SaveScalarD.handle rest)
   | "at" :: rest => (s, AttrD.handle rest)
   | "ib" :: rest => (s, ImportBusD.handle rest)
+  | "if" :: rest => (s, ImportFileD.handle rest)
   | _ => (s, "bad-op")
 
 partial def loop (hin : IO.FS.Stream) (hout : IO.FS.Stream) (s : DState) : IO Unit := do
